@@ -31,9 +31,19 @@ type C19UsersScenario struct {
 	Seconds  int    `json:"seconds"` // volume = Rate*Seconds per session, split over its streams
 	Partial  bool   `json:"partial"`
 	Seed     uint64 `json:"seed"`
+	// Reconnect: one session with a backlog of downloads; the server closes it
+	// (the proxy server cannot be reached for one more stream); as soon as the
+	// server has forgotten the user's record the user logs in again and downloads
+	// again: whatever the old session still sends and the new one together stay
+	// within the rate (plus one burst per incarnation of the user's limiter)
+	Reconnect bool `json:"reconnect,omitempty"`
 }
 
 func genC19Users(g *Gen) any {
+	if g.Bool(0.25) {
+		return &C19UsersScenario{Rate: logUniform(g, 16640, 30000), Sessions: 1, NumConn: g.Int(1, 3), Streams: g.Int(4, 8),
+			Seconds: g.Int(5, 8), Partial: g.Bool(0.3), Seed: g.Rng.Uint64(), Reconnect: true}
+	}
 	return &C19UsersScenario{Rate: logUniform(g, 16640, 120000), Sessions: g.Int(2, 4), NumConn: g.Int(1, 3), Streams: g.Int(1, 2),
 		Seconds: g.Int(3, 5), Partial: g.Bool(0.3), Seed: g.Rng.Uint64()}
 }
@@ -65,9 +75,30 @@ func runC19Users(c *Ctx, scAny any) {
 	start := c.W.Elapsed()
 	perStream := int(sc.Rate) * sc.Seconds / sc.Streams
 	pending := sc.Sessions * sc.Streams
-	for s := 0; s < sc.Sessions; s++ {
+	killed := false // (Reconnect) the first session is being closed by the server: its streams end
+	nSessions := sc.Sessions
+	if sc.Reconnect {
+		pending = sc.Streams // the downloads of the second login are what must complete
+		nSessions = 2
+	}
+	userKnown := func() bool {
+		for _, u := range w.Sta.Panel.VerifUsers() {
+			if string(u.UID[:]) == string(uid) {
+				return true
+			}
+		}
+		return false
+	}
+	for s := 0; s < nSessions; s++ {
 		s := s
 		simsync.Go("h:client", func() {
+			if sc.Reconnect && s == 1 {
+				// the second login: once the server, having failed to reach the proxy
+				// server for the first session's extra stream, has forgotten the user
+				for (c.Net.Fired["dial_fail"] == 0 || userKnown()) && !c.Failed() {
+					Sleep(10 * time.Millisecond)
+				}
+			}
 			cp := ClientParams{UID: uid, Method: "shadowsocks", Encryption: []string{"plain", "aes-gcm", "chacha20-poly1305"}[s%3], Browser: "firefox", Transport: "direct",
 				NumConn: sc.NumConn, SessionID: uint32(100 + s)}
 			rng := rand.New(rand.NewPCG(sc.Seed, uint64(40+s)))
@@ -78,18 +109,36 @@ func runC19Users(c *Ctx, scAny any) {
 			}
 			d := &simnet.Dialer{Net: c.Net, LocalIP: "10.0.6.1", Tag: "front"}
 			var sesh *mux.Session = client.MakeSession(remote, auth, d)
+			if sc.Reconnect && s == 0 {
+				simsync.Go("h:one-more-stream", func() {
+					Sleep(1500 * time.Millisecond)
+					killed = true
+					c.Net.DialFail["10.0.0.3:8388"] = 1
+					if st, err := sesh.OpenStream(); err == nil {
+						st.Write(make([]byte, 12))
+					}
+				})
+			}
 			for k := 0; k < sc.Streams; k++ {
 				simsync.Go("h:client-stream", func() {
-					defer func() { pending-- }()
+					if !(sc.Reconnect && s == 0) {
+						defer func() { pending-- }()
+					}
 					st, err := sesh.OpenStream()
 					if err != nil {
+						if killed && s == 0 {
+							return
+						}
 						c.Fail("rate", "error:open", "%v", err)
 						return
 					}
 					hdr := make([]byte, 12)
 					binary.BigEndian.PutUint32(hdr[4:], uint32(perStream))
 					if _, err := st.Write(hdr); err != nil {
-						c.Fail("rate", "error:write", "%v", err)
+						if killed && s == 0 {
+							return
+						}
+						c.Fail("rate", "error:write", "session %d: %v", s, err)
 						return
 					}
 					buf := make([]byte, 32768)
@@ -97,7 +146,10 @@ func runC19Users(c *Ctx, scAny any) {
 						n, err := st.Read(buf)
 						got += n
 						if err != nil {
-							c.Fail("rate", "error:read", "after %d of %d bytes: %v", got, perStream, err)
+							if killed && s == 0 {
+								return // the server closed this session
+							}
+							c.Fail("rate", "error:read", "session %d after %d of %d bytes: %v", s, got, perStream, err)
 							return
 						}
 					}
@@ -130,7 +182,12 @@ func runC19Users(c *Ctx, scAny any) {
 			tx = append(tx, rateEvent{e.At - start, int64(e.N - 5)})
 		}
 	}
-	if ok, why := checkEnvelope(tx, sc.Rate); !ok {
+	bursts := 1
+	if sc.Reconnect {
+		bursts = 2
+		c.Probe("reconnected_after_server_close")
+	}
+	if ok, why := checkEnvelopeN(tx, sc.Rate, bursts); !ok {
 		c.Fail("rate", "tx-exceeded", "one user (DownRate %d B/s) with %d sessions started together on %d connections: %s", sc.Rate, sc.Sessions, len(front), why)
 		return
 	}
